@@ -16,6 +16,15 @@ import (
 
 const verifRoot = "/verif"
 
+// outRoot: where evidence and replays are written (VERIF_OUT redirects them for experiments on scratch copies of /repo)
+func outRoot() string {
+	if v := os.Getenv("VERIF_OUT"); v != "" {
+		os.MkdirAll(filepath.Join(v, "evidence"), 0o755)
+		return v
+	}
+	return verifRoot
+}
+
 func usage() {
 	fmt.Fprintln(os.Stderr, `govc — contract-based deductive verifier for /repo (theQRL/go-qrllib)
   govc check -p <Cnn> [-tier quick|thorough]     run the check of one property, write evidence/<id>.json
